@@ -8,6 +8,8 @@ package types
 // state is untouched and an error is returned; only a nil result commits exactly f's writes. The function itself never panics.
 //@ func ApplyFuncIfNoError
 //@   property C15
+//@   modular
+//@   modifies *
 //@   nopanic
 //@   ensures #c15-atomic: err != nil ==> unchanged()
 //@   ensures #c15-commit: err == nil ==> sameworld(ctx, cacheCtx)
